@@ -50,7 +50,7 @@ ASSUMPTIONS = [
     'an API that raises on an input is not a C17 violation; only a changed input is',
 ]
 BUDGET = {'quick': 16 * 450, 'thorough': 16 * 9000}
-FLOORS = {'sharing': 0.3, 'has_tags': 0.5, 'long_value': 0.3}
+FLOORS = {'sharing': 0.209, 'has_tags': 0.441, 'long_value': 0.208}
 
 LONG = 'L' * 90
 
